@@ -24,7 +24,7 @@ Definition dir_eqb (a b : dir) : bool :=
   match a, b with Up, Up | Dw, Dw | Bi, Bi => true | _, _ => false end.
 Inductive mo := MO_equal | MO_ignore | MO_msb | MO_mapping.
 Inductive cda := NotSent | LSB | MappingSent | ValueSent | Compute.
-Inductive nature := Compression | NoCompression.
+Inductive nature := Compression | NoCompression | Fragmentation.
 
 Definition bits_eqb : bits -> bits -> bool := list_eqb Bool.eqb.
 
@@ -110,6 +110,7 @@ Definition compress (pd : pdesc) (r : rule) (direction : option dir) : res bits 
     Ok (body ++ pd_payload pd)
   | NoCompression =>
     Ok (rule_id r ++ concat (map f_val (pd_fields pd)) ++ pd_payload pd)
+  | Fragmentation => Ok (rule_id r)     (* neither branch of the if/elif: the bare rule id *)
   end.
 
 (* ---- decompressor --------------------------------------------------------------------------- *)
@@ -275,6 +276,7 @@ Definition rule_matches (pd : pdesc) (r : rule) : res bool :=
     let rfs := filter (applies (pd_dir pd)) (rule_fds r) in
     if negb (length (pd_fields pd) =? length rfs)%nat then Ok false
     else do mm <- any_mismatch (pd_fields pd) rfs ;; Ok (negb mm)
+  | Fragmentation => Ok false           (* neither branch of the if/elif: the rule is never yielded *)
   end.
 
 (* the generator Ruler.match_packet_descriptor: the rules yielded, until the generator raises *)
